@@ -2,7 +2,12 @@
 """Generates /verif/MANIFEST.json from checks.json (single source of truth for registered checks)."""
 import json, os
 V = os.path.dirname(os.path.dirname(os.path.abspath(__file__)))
-cfg = json.load(open(os.path.join(V, "checks.json")))
+import importlib.machinery, importlib.util
+_l = importlib.machinery.SourceFileLoader("check", os.path.join(V, "bin", "check"))
+_spec = importlib.util.spec_from_loader("check", _l)
+_m = importlib.util.module_from_spec(_spec)
+_l.exec_module(_m)
+cfg = _m.load_cfg()
 props = [json.loads(l) for l in open(os.path.join(V, "properties.jsonl"))]
 ids = [p["id"] for p in props]
 checks = []
@@ -49,3 +54,13 @@ man = {
 }
 json.dump(man, open(os.path.join(V, "MANIFEST.json"), "w"), indent=1)
 print("MANIFEST: %d checks, %d not_applicable" % (len(checks), len(na)))
+
+# merge known-findings fragments (development time only; checks never write this file)
+import glob
+kf = {"findings": [], "fixed": []}
+for f in sorted(glob.glob(os.path.join(V, "known_findings.d", "*.json"))):
+    d = json.load(open(f))
+    kf["findings"] += d.get("findings", [])
+    kf["fixed"] += d.get("fixed", [])
+json.dump(kf, open(os.path.join(V, "known_findings.json"), "w"), indent=1)
+print("known_findings: %d findings, %d fixed" % (len(kf["findings"]), len(kf["fixed"])))
